@@ -28,6 +28,7 @@ from .lib_fm import NONE, N, R, V, assign, call, cmp_, decl, el, op, rng_, unit
 
 KIND = 'real64'
 MAXINT = 20          # invariant of the generated programs: every integer variable / element holds |v| <= MAXINT
+NINIT = 7             # initialisation statements at the head of every kernel (kept by the shrinker)
 NODE_LIMIT = 25000   # static bound on every integer sub-expression (the machine's magnitude limit is 30000)
 
 
@@ -69,6 +70,7 @@ def driver_for(prog, inputs, entry='kernel', wrapper=False):
 #     conv      implicit real -> integer conversion in a scalar assignment (and integer -> real)
 #     intcast   INT(real expression)
 #     while, select, exitcycle, section   the statements of these names
+#     selneg    SELECT CASE with negative case values / ranges
 ALL_FEATURES = ('lb', 'step', 'lvafter', 'boundmod', 'idiv', 'mod', 'intfn', 'sign', 'ipow', 'fndiv', 'conv', 'intcast',
                 'while', 'select', 'exitcycle', 'section')
 
@@ -331,7 +333,7 @@ class TGen(F.Gen):
         kinds = ['assign', 'assign', 'aelem', 'aelem', 'real', 'real', 'logical', 'if', 'do', 'do']
         if 'ib' in self.arrays:
             kinds.append('belem')
-        for feat, w in (('while', 1), ('select', 1), ('section', 2), ('conv', 2)):
+        for feat, w in (('while', 1), ('select', 1), ('selneg', 4), ('section', 2), ('conv', 2)):
             if feat in f:
                 kinds += [feat] * (w * (3 if self.focus == feat else 1))
         if 'exitcycle' in f and self.active_loops and self.active_loops[-1] != 'w':
@@ -339,7 +341,7 @@ class TGen(F.Gen):
         if 'lvafter' in f or 'boundmod' in f or 'step' in f or 'exitcycle' in f:
             kinds += ['do', 'do']
         if d <= 0:
-            kinds = [k for k in kinds if k not in ('if', 'do', 'select', 'while')] or ['assign']
+            kinds = [k for k in kinds if k not in ('if', 'do', 'select', 'selneg', 'while')] or ['assign']
         k = rng.choice(kinds)
         writable = [v for v in self.int_writable if v not in self.active_loops and v not in self.frozen]
         if k == 'assign':
@@ -375,9 +377,12 @@ class TGen(F.Gen):
             body = self.block(d - 1, rng.randint(1, 2)) + [assign(V('w'), op('sum', V('w'), N(1)))]
             self.active_loops.pop()
             return [assign(V('w'), N(0)), {'s': 'while', 'cond': cmp_('<', V('w'), N(rng.randint(1, 3))), 'body': body}]
-        if k == 'select':
+        if k in ('select', 'selneg'):
             self.used.add('select')
-            cases, lo = [], rng.choice([-1, 0, 1])
+            cases, lo = [], rng.choice([0, 0, 1])
+            if 'selneg' in f:
+                self.used.add('selneg')
+                lo = rng.choice([-3, -2, -1])
             for _ in range(rng.randint(1, 3)):
                 hi = lo + rng.choice([0, 0, 1])
                 cases.append({'lo': lo, 'hi': hi, 'body': self.block(d - 1, 1)})
@@ -570,11 +575,13 @@ def gen_cases(rng, pools, core, counts, ninputs=3):
             feats = set(core) | ({pool} if pool != 'core' else set())
             if pool == 'fndiv':
                 feats |= {'idiv', 'mod', 'intfn', 'ipow'}
+            if pool == 'selneg':
+                feats |= {'select'}
             g = TGen(rng, feats, None if pool == 'core' else pool)
             if pool == 'core':
                 prog = g.program(nstmts=rng.randint(4, 8), depth=2)
             else:
-                prog = g.program(nstmts=rng.randint(2, 4), depth=2 if pool in ('step', 'lvafter', 'boundmod', 'exitcycle', 'lb') else 1)
+                prog = g.program(nstmts=rng.randint(2, 4), depth=2 if pool in ('step', 'lvafter', 'boundmod', 'exitcycle', 'lb', 'select', 'selneg') else 1)
             cases.append({'prog': prog, 'inputs': g.inputs(prog, ninputs), 'pool': pool})
     return cases
 
@@ -842,8 +849,11 @@ def check(ctx, label, cases, transform, execute, *, entry='kernel', max_disagree
             raise
         return res
 
+    import time
+    t0 = time.time()
     with cf.ThreadPoolExecutor(max_workers=8) as ex:
         results = list(ex.map(build_orig, range(len(cases))))
+    t1 = time.time()
     for res in results:                       # Loki is not thread-safe: serial
         if res['orig'][0] != 'ok':
             res['new'] = ('skipped', None, '')
@@ -855,8 +865,13 @@ def check(ctx, label, cases, transform, execute, *, entry='kernel', max_disagree
             raise
         except Exception as ex:  # pylint: disable=broad-except
             res['new'] = ('transform-raised', None, _root_cause(ex) + '\n' + traceback.format_exc()[-1200:])
+    t2 = time.time()
     with cf.ThreadPoolExecutor(max_workers=8) as ex:
         results = list(ex.map(run_new, results))
+    t3 = time.time()
+    tm = ctx.cover.setdefault('phase_wall_s', {'gfortran_original': 0, 'loki_transform': 0, 'build_run_transpiled': 0})
+    for kk, vv in (('gfortran_original', t1 - t0), ('loki_transform', t2 - t1), ('build_run_transpiled', t3 - t2)):
+        tm[kk] = round(tm[kk] + vv, 1)
 
     tcases, tmeta = [], []
     stats = dict(programs=len(cases), orig_failed=0, illegal_runs=0, oracle_disagreement=0, judged_runs=0, judged_programs=0)
@@ -934,7 +949,10 @@ def report(ctx, label, cases, results, fails, recheck=None, shrink_pools=('core'
         if recheck is not None and pool in shrink_pools and nshrunk < max_shrink:
             nshrunk += 1
             for _ in range(rounds):
-                cands = F.removal_candidates(small, limit=14)
+                init = small['units'][0]['body'][:NINIT]
+                cands = [p for p in F.removal_candidates(small, limit=60) if p['units'][0]['body'][:NINIT] == init]
+                cands.sort(key=lambda p: len(json.dumps(p)))
+                cands = cands[:20]
                 if not cands:
                     break
                 outcome = recheck([{'prog': p, 'inputs': c['inputs'], 'pool': pool} for p in cands])
@@ -964,6 +982,9 @@ def run_property(ctx, label, transform, execute, core, pools, quick_counts, thor
         cases = [{'prog': c['prog'], 'inputs': c['inputs'], 'pool': c.get('pool', 'core')}]
     else:
         counts = quick_counts if ctx.quick else thorough_counts
+        only = os.environ.get('VERIF_TRANSPILE_POOLS')          # development aid: restrict the pools
+        if only:
+            pools = [p for p in pools if p in only.split(',')]
         cases = gen_cases(ctx.rng, pools, core, lambda p: counts.get(p, counts['*']))
     results, fails, stats = check(ctx, label, cases, transform, execute, shards=8 if ctx.quick else None)
     report(ctx, label, cases, results, fails, make_recheck(ctx, label, transform, execute),
